@@ -343,6 +343,204 @@ theorem refF_define (al : List (Str × Val)) (F : Nat) (assigns : List Assign) (
   | zero => simp only [eval]; exact le_unsupported _ _
   | succ G => simp only [eval]; exact refF_definesOf cfg F n k h assigns al [] G (by omega)
 
+/-! ### the remaining statements -/
+
+def optDomain (d : Option Tok) (n : Node) : Node := match d with | none => n | some cl => .domain cl.str n
+def optContext (c : Option Tok) (n : Node) : Node := match c with | none => n | some cl => .txContext cl.str n
+def optTarget (t : Option Tok) (n : Node) : Node :=
+  match t with
+  | none => n
+  | some cl => .define [.alias (lit "default") (.pyName (lit "target_language"))] (.target (.value cl) n)
+def optSlot (ds : Option Tok) (n : Node) : Node := match ds with | none => n | some cl => .defineSlot cl n
+
+theorem refF_domainOf (al : List (Str × Val)) (F : Nat) (d : Option Tok) (n : Node) (k : RM Unit)
+    (h : RefF F (fun G => eval cfg al G n) k) : RefF F (fun G => eval cfg al G (optDomain d n)) (domainOf d k) := by
+  unfold optDomain domainOf
+  cases d with
+  | none => exact h
+  | some cl =>
+    intro G hG
+    cases G with
+    | zero => simp only [eval]; exact le_unsupported _ _
+    | succ G => simp only [eval]; have := h G (by omega); le
+
+theorem refF_contextOf (al : List (Str × Val)) (F : Nat) (c : Option Tok) (n : Node) (k : RM Unit)
+    (h : RefF F (fun G => eval cfg al G n) k) : RefF F (fun G => eval cfg al G (optContext c n)) (contextOf c k) := by
+  unfold optContext contextOf
+  cases c with
+  | none => exact h
+  | some cl =>
+    intro G hG
+    cases G with
+    | zero => simp only [eval]; exact le_unsupported _ _
+    | succ G => simp only [eval]; have := h G (by omega); le
+
+theorem refF_target (al : List (Str × Val)) (F : Nat) (cl : Tok) (n : Node) (k : RM Unit)
+    (h : RefF F (fun G => eval cfg al G n) k) :
+    RefF F (fun G => eval cfg al G (.target (.value cl) n)) (do
+      let s ← mGet
+      let old := s.env.topFrame.targetLang
+      let v ← enVal cfg al (.value cl)
+      modFrame (fun fr => { fr with targetLang := v })
+      setVar (lit "target_language") v
+      k
+      modFrame (fun fr => { fr with targetLang := old })
+      setVar (lit "target_language") old) := by
+  intro G hG
+  cases G with
+  | zero => simp only [eval]; exact le_unsupported _ _
+  | succ G => simp only [eval]; have := h G (by omega); le
+
+theorem refF_targetOf (al : List (Str × Val)) (F : Nat) (t : Option Tok) (n : Node) (k : List (Str × Val) → RM Unit)
+    (h : ∀ al', RefF F (fun G => eval cfg al' G n) (k al')) :
+    RefF F (fun G => eval cfg al G (optTarget t n)) (targetOf cfg al t k) := by
+  unfold optTarget targetOf
+  cases t with
+  | none => exact h al
+  | some cl =>
+    exact refF_define_alias cfg al F (lit "default") (.pyName (lit "target_language")) _ _
+      (fun v => refF_target cfg _ F cl n _ (h _))
+
+theorem refF_slotOf (al : List (Str × Val)) (F : Nat) (ds : Option Tok) (n : Node) (k : RM Unit)
+    (h : RefF F (fun G => eval cfg al G n) k) : RefF F (fun G => eval cfg al G (optSlot ds n)) (slotOf cfg F ds k) := by
+  unfold optSlot slotOf
+  cases ds with
+  | none => exact h
+  | some nm =>
+    intro G hG
+    cases G with
+    | zero => simp only [eval]; exact le_unsupported _ _
+    | succ G =>
+      have hGk : Le (eval cfg al G n) k := h G (by omega)
+      refine le_of_at (fun s hs => ?_)
+      simp only [eval] at hs ⊢
+      cases hl : lookupAssoc s.env.topFrame.slotFns (mangleName nm.str) with
+      | none => simp only [hl] at hs ⊢; exact hGk.at_ s hs
+      | some o =>
+        cases o with
+        | none => simp only [hl] at hs ⊢; exact hGk.at_ s hs
+        | some cid =>
+          simp only [hl] at hs ⊢
+          cases hc : s.closures[cid]? with
+          | none => simp only [hc] at hs ⊢
+          | some cl =>
+            simp only [hc] at hs ⊢
+            exact (le_wrap (eval cfg cl.al G cl.node) (eval cfg cl.al F cl.node) (fillerEnter cl) fillerLeave fillerRaise
+              (eval_fuel_le cfg cl.al cl.node G F (by omega))).at_ s hs
+
+theorem refF_nameOf (al : List (Str × Val)) (F : Nat) (nm : Option Tok) (n : Node) (k : RM Unit)
+    (h : RefF F (fun G => eval cfg al G n) k) :
+    RefF F (fun G => eval cfg al G (match nm with | some cl => Node.name cl n | none => n)) (nameOf nm k) := by
+  unfold nameOf
+  cases nm with
+  | none => exact h
+  | some cl =>
+    intro G hG
+    cases G with
+    | zero => simp only [eval]; exact le_unsupported _ _
+    | succ G => simp only [eval]; have := h G (by omega); le
+
+theorem refF_onErrorOf (al : List (Str × Val)) (F : Nat) (id : Nat) (fb n : Node) (kfb k : RM Unit)
+    (hfb : RefF F (fun G => eval cfg al G fb) kfb) (h : RefF F (fun G => eval cfg al G n) k) :
+    RefF F (fun G => eval cfg al G (.onError id fb n)) (onErrorOf cfg id kfb k) := by
+  intro G hG
+  cases G with
+  | zero => simp only [eval]; exact le_unsupported _ _
+  | succ G =>
+    refine le_of_at (fun s hs => ?_)
+    simp only [eval, onErrorOf] at hs ⊢
+    generalize hs1 : ({ s with env := match s.env.frames with
+      | fr :: rest => { s.env with frames := { fr with saved := ((if cfg.tc.q.sharedFallbackVar = true then 0 else id), (s.streams.headD []).length) :: fr.saved.filter (·.1 != (if cfg.tc.q.sharedFallbackVar = true then 0 else id)) } :: rest }
+      | [] => s.env } : RState) = s1 at hs ⊢
+    have hGk : Le (eval cfg al G n) k := h G (by omega)
+    have hGfb : Le (eval cfg al G fb) kfb := hfb G (by omega)
+    cases hr : eval cfg al G n s1 with
+    | unsupported w => exact absurd (by simp [hr]) (hs w)
+    | ok u s' =>
+      have : k s1 = eval cfg al G n s1 := hGk.at_ s1 (by intro w hw; rw [hr] at hw; cases hw)
+      rw [this, hr]
+    | raised ex s' =>
+      have : k s1 = eval cfg al G n s1 := hGk.at_ s1 (by intro w hw; rw [hr] at hw; cases hw)
+      rw [this, hr]
+      simp only [hr] at hs
+      by_cases hsub : (!isSubclass cfg ex.cls ["Exception"]) = true
+      · simp only [hsub, if_true]
+      · simp only [hsub] at hs ⊢
+        cases ho : onErrorHandle cfg (if cfg.tc.q.sharedFallbackVar = true then 0 else id) s.streams.length
+            (List.length (s.streams.headD [])) ex s' with
+        | none => rfl
+        | some s2 =>
+          simp only [ho] at hs ⊢
+          exact hGfb.at_ _ hs
+
+/-- the children, `tal:content`, or a static `i18n:translate` around them -/
+theorem refF_contentFullOf (al : List (Str × Val)) (F : Nat) (ip : InnerSpec) (body : List Node) :
+    RefF F (fun G => eval cfg al G (ip.contentNode (.seq body)))
+      (contentFullOf cfg F ip (.seq body) (fun al' => evalList cfg al' F body) al) := by
+  unfold contentFullOf
+  cases ht : ip.translate with
+  | none =>
+    exact refF_contentOf cfg al F ip ht (.seq body) _ (fun al' => refF_seq cfg al' F body _ (refF_evalList cfg al' F body))
+  | some t => exact refF_eval cfg al F _
+
+theorem refF_taggedFullOf (al : List (Str × Val)) (F : Nat) (ip : InnerSpec) (body : List Node) :
+    RefF F (fun G => eval cfg al G (ip.tagged (.seq body)))
+      (taggedFullOf cfg F ip (.seq body) (fun al' => evalList cfg al' F body) al) := by
+  unfold InnerSpec.tagged taggedFullOf
+  have hct := refF_contentFullOf cfg al F ip body
+  by_cases ho : ip.omitAlways = true
+  · simp only [ho, if_true]; exact hct
+  · simp only [ho, Bool.false_eq_true, if_false]
+    cases hoe : ip.omitExpr with
+    | none =>
+      simp only
+      refine refF_element cfg al F _ _ _ _ _ _ (refF_eval cfg al F _) hct ?_
+      cases ip.endTag with
+      | none => rfl
+      | some e => exact refF_eval cfg al F e
+    | some oc =>
+      obtain ⟨oid, cl⟩ := oc
+      simp only
+      cases hen : ip.endTag with
+      | none =>
+        have key := refF_cache_one cfg al F oid (.negate (.value cl)) _ _
+          (refF_element cfg al F (.condition (.e (.ref oid)) ip.startTag none) (ip.contentNode (.seq body)) none _ _ (pure ())
+            (refF_condition cfg al F _ _ none _ (pure ()) (refF_eval cfg al F ip.startTag) rfl) hct rfl)
+        intro G hG
+        have := key G hG
+        simp only [rm_bind_assoc, Option.map_none] at this ⊢
+        exact this
+      | some e =>
+        have key := refF_cache_one cfg al F oid (.negate (.value cl)) _ _
+          (refF_element cfg al F (.condition (.e (.ref oid)) ip.startTag none) (ip.contentNode (.seq body))
+            (some (Node.condition (.e (.ref oid)) e none)) _ _ _
+            (refF_condition cfg al F _ _ none _ (pure ()) (refF_eval cfg al F ip.startTag) rfl) hct
+            (refF_condition cfg al F _ _ none _ (pure ()) (refF_eval cfg al F e) rfl))
+        intro G hG
+        have := key G hG
+        simp only [rm_bind_assoc, Option.map_some] at this ⊢
+        exact this
+
+theorem refF_innerFullOf (al : List (Str × Val)) (F : Nat) (p : ElemStmts) (slots : List (Tok × Node)) (body : List Node) :
+    RefF F (fun G => eval cfg al G (p.innerNode slots body))
+      (innerFullOf cfg F p slots body (fun al' => evalList cfg al' F body) al) := by
+  unfold ElemStmts.innerNode innerFullOf
+  cases hk : p.kind with
+  | macroUse tok ext =>
+    have hn : p.innerNode slots body =
+        Node.define [Assign.assign [{ str := lit "macroname", pos := 0 }] (EN.const (rsplitSlash tok.str)) true]
+          (Node.useExternal (EN.value tok) slots ext) := by
+      simp only [ElemStmts.innerNode, hk]
+    simp only [hn]
+    exact refF_eval cfg al F _
+  | tal ip =>
+    simp only [InnerSpec.node]
+    cases hr : ip.replace with
+    | none => exact refF_taggedFullOf cfg al F ip body
+    | some r =>
+      obtain ⟨id, expr, st, tr⟩ := r
+      exact refF_insertOr cfg al F (id, expr, st, tr) (ip.tagged (.seq body)) _ (fun al' => refF_taggedFullOf cfg al' F ip body)
+
 end layers
 
 /-! ## what the builder assembles -/
@@ -358,16 +556,38 @@ theorem wrappers_shape (p : ElemStmts) (ip : InnerSpec) (h : talOnly p ip) (inne
   rcases p.case_ with _ | ⟨sw, ccl⟩ <;> rcases p.condition with _ | cl <;> rcases p.repeat_ with _ | ⟨rid, d, ws⟩ <;>
     rcases p.switch with _ | ⟨sid, scl⟩ <;> rfl
 
-/-- for an element of the fragment `elementPost` always succeeds, and its node is the statement wrappers around
-`InnerSpec.node` of the children's nodes -/
+set_option maxHeartbeats 4000000 in
+/-- the nesting of all statement wrappers: `metal:define-slot` ▸ definitions ▸ `tal:case` ▸ `tal:condition` ▸ `tal:repeat` ▸
+`tal:switch` ▸ `i18n:domain` ▸ `i18n:context` ▸ `i18n:target` -/
+theorem wrappers_shape_full (p : ElemStmts) (inner : Node) :
+    applyWrappers p.wrappers wrapOrder inner =
+      optSlot p.defineSlot (.define p.assigns (optCase p.case_ (optCond p.condition (optRepeat p.repeat_ (optSwitch p.switch
+        (optDomain p.domain (optContext p.context (optTarget p.target inner)))))))) := by
+  unfold ElemStmts.wrappers
+  rcases p.defineSlot with _ | ds <;> rcases p.case_ with _ | ⟨sw, ccl⟩ <;> rcases p.condition with _ | cl <;>
+    rcases p.repeat_ with _ | ⟨rid, d, ws⟩ <;> rcases p.switch with _ | ⟨sid, scl⟩ <;> rcases p.domain with _ | dm <;>
+    rcases p.context with _ | cx <;> rcases p.target with _ | tg <;> rfl
+
+/-- `elementPost` always succeeds; its node is `fullNode` of the parsed statements, the slot fillers the children
+registered (for a macro use) and the children's nodes -/
+theorem elementPost_shape (p : ElemStmts) (body : List Node) (st : BState) :
+    ∃ st' oid, elementPost p body st = .ok (p.fullNode oid (st.useMacro.headD []) body, st') := by
+  unfold elementPost
+  simp only [bind, bModify, bGet, pure]
+  by_cases hu : p.useMacroNonEmpty = true <;> simp only [hu, if_true, Bool.false_eq_true, if_false] <;>
+    rcases hf : p.fillSlot with _ | cl <;> simp only [] <;>
+    rcases hm : p.defineMacro with _ | cm <;> simp only [] <;>
+    rcases ho : p.onError with _ | oe <;> simp only [freshId, pure] <;>
+    exact ⟨_, _, rfl⟩
+
+/-- for an element of the fragment the node is the statement wrappers around `InnerSpec.node` of the children's nodes -/
 theorem elementPost_tal (p : ElemStmts) (ip : InnerSpec) (h : talOnly p ip) (body : List Node) (st : BState) :
     ∃ st', elementPost p body st = .ok (applyWrappers p.wrappers wrapOrder (ip.node (.seq body)), st') := by
+  obtain ⟨st', oid, hs⟩ := elementPost_shape p body st
   obtain ⟨hk, _, _, _, _, _, hn, hf, hm, ho⟩ := h
-  unfold elementPost
-  simp only [hk, hn, hf, hm, ho, bind, bModify, bGet, pure]
-  by_cases hu : p.useMacroNonEmpty = true
-  · simp only [hu, if_true]; exact ⟨_, rfl⟩
-  · simp only [hu, Bool.false_eq_true, if_false]; exact ⟨_, rfl⟩
+  refine ⟨st', ?_⟩
+  rw [hs]
+  simp only [ElemStmts.fullNode, ElemStmts.slotNode, ElemStmts.innerNode, hk, hn, hm, ho]
 
 /-- **C01 (an element renders as the statement semantics prescribes)**: for every element of the TAL fragment
 (`tal:define`, `tal:case`, `tal:condition`, `tal:repeat`, `tal:switch`, `tal:content` | `tal:replace`, `tal:omit-tag`,
@@ -408,6 +628,53 @@ theorem C01_element_raised (cfg : ECfg) (p : ElemStmts) (ip : InnerSpec) (h : ta
     (al : List (Str × Val)) (F G : Nat) (hG : G ≤ F) (s s' : RState) (ex : Exc) (he : eval cfg al G node s = .raised ex s') :
     specElement cfg F p ip (fun al' => evalList cfg al' F body) al s = .raised ex s' := by
   rw [(C01_element_semantics cfg p ip h body st st' node hb al F G hG).at_ s (by intro w hw; rw [he] at hw; cases hw), he]
+
+/-- **C01 (every element renders as the statement semantics prescribes)**: for *every* element — any combination of TAL,
+METAL and i18n statements and `tal:on-error` — every list of child nodes, builder state, alias list, scope, state and fuel:
+whenever the interpreter reaches a verdict on the node `elementPost` builds, `specFull` reaches the same verdict.  So the
+statements act in one fixed order: `tal:on-error` ▸ `i18n:name` ▸ (in-place use of a defined macro |) `metal:define-slot` ▸
+definitions ▸ `tal:case` ▸ `tal:condition` ▸ `tal:repeat` ▸ `tal:switch` ▸ `i18n:domain` ▸ `i18n:context` ▸ `i18n:target` ▸
+`tal:replace` ▸ tags (`tal:omit-tag`, attributes) ▸ `tal:content` ▸ children. -/
+theorem C01_element_semantics_full (cfg : ECfg) (p : ElemStmts) (body : List Node) (st st' : BState) (node : Node)
+    (hb : elementPost p body st = .ok (node, st')) :
+    ∃ oid, ∀ (al : List (Str × Val)) (F G : Nat), G ≤ F →
+      Le (eval cfg al G node) (specFull cfg F p oid (st.useMacro.headD []) body al) := by
+  obtain ⟨st1, oid, hp⟩ := elementPost_shape p body st
+  rw [hp] at hb
+  have hnode : node = p.fullNode oid (st.useMacro.headD []) body := by
+    injection hb with hb; injection hb with h1 _; exact h1.symm
+  subst hnode
+  refine ⟨oid, fun al F G hG => ?_⟩
+  -- the core: name ▸ macro ▸ slot ▸ wrappers ▸ inner
+  have hslot : RefF F (fun G => eval cfg al G (p.slotNode (st.useMacro.headD []) body))
+      (slotOf cfg F p.defineSlot (definesOf cfg p.assigns al [] fun al1 =>
+        caseOf cfg al1 p.case_ fun al2 => conditionOf cfg al2 p.condition <| repeatOf cfg al2 p.repeat_ <|
+        switchOf cfg al2 p.switch <| domainOf p.domain <| contextOf p.context <| targetOf cfg al2 p.target fun al3 =>
+        innerFullOf cfg F p (st.useMacro.headD []) body (fun al' => evalList cfg al' F body) al3)) := by
+    unfold ElemStmts.slotNode
+    rw [wrappers_shape_full]
+    exact refF_slotOf cfg al F p.defineSlot _ _ (refF_define cfg al F p.assigns _ _ (fun al1 =>
+      refF_caseOf cfg al1 F p.case_ _ _ (fun al2 =>
+        refF_conditionOf cfg al2 F p.condition _ _ (refF_repeatOf cfg al2 F p.repeat_ _ _ (refF_switchOf cfg al2 F p.switch _ _
+          (refF_domainOf cfg al2 F p.domain _ _ (refF_contextOf cfg al2 F p.context _ _ (refF_targetOf cfg al2 F p.target _ _
+            (fun al3 => refF_innerFullOf cfg al3 F p (st.useMacro.headD []) body)))))))))
+  have hmacro : RefF F (fun G => eval cfg al G (match p.defineMacro with
+        | some cl => Node.useInternal (some cl.str) | none => p.slotNode (st.useMacro.headD []) body))
+      (macroOf cfg F al p.defineMacro (slotOf cfg F p.defineSlot (definesOf cfg p.assigns al [] fun al1 =>
+        caseOf cfg al1 p.case_ fun al2 => conditionOf cfg al2 p.condition <| repeatOf cfg al2 p.repeat_ <|
+        switchOf cfg al2 p.switch <| domainOf p.domain <| contextOf p.context <| targetOf cfg al2 p.target fun al3 =>
+        innerFullOf cfg F p (st.useMacro.headD []) body (fun al' => evalList cfg al' F body) al3))) := by
+    unfold macroOf
+    cases p.defineMacro with
+    | none => exact hslot
+    | some cl => exact refF_eval cfg al F _
+  have hname := refF_nameOf cfg al F p.name _ _ hmacro
+  unfold ElemStmts.fullNode specFull
+  cases ho : p.onError with
+  | none => exact hname G hG
+  | some oe =>
+    obtain ⟨stt, expr⟩ := oe
+    exact refF_onErrorOf cfg al F oid _ _ _ _ (refF_eval cfg al F _) hname G hG
 
 /-- the hypotheses are met: an element with `tal:condition`, `tal:repeat`, `tal:content` and `tal:omit-tag` -/
 example : ∃ (p : ElemStmts) (ip : InnerSpec), talOnly p ip ∧ p.condition.isSome ∧ p.repeat_.isSome ∧ ip.content.isSome ∧
